@@ -555,3 +555,43 @@ def gen_sections_file(rng):
     secs.append(elfgen.Sec('.strtab', 3, data=tab))
     img, info = elfgen.build(cls=cls, le=le, machine=machine, etype=1, sections=secs)
     return img, dict(cls=cls, le=le, machine=machine, sections=len(secs), many=many, xindex=xidx)
+
+
+def gen_header_file(rng, machines, osabis):
+    """-> (image, description): headers with every field varied - class, byte order, OS ABI and ABI version, type
+    (incl. a PIE, which readelf tells from DT_FLAGS_1), machine, entry point, machine flags, and the extended
+    numbering escapes for the section count and the string table index."""
+    v = getattr(rng, 'variant', 0) or 0
+    cls = 32 if v & 1 else 64
+    le = rng.random() < 0.6
+    E = '<' if le else '>'
+    is64 = cls == 64
+    machine = rng.choice(machines)
+    osabi = rng.choice(osabis)
+    etype = [1, 2, 3, 3, 4][v % 5]
+    pie = etype == 3 and (v >> 1) % 2 == 0
+    eflags = 0
+    if machine == 40:
+        eflags = 0x05000000 | rng.choice([0, 0x200, 0x400, 0x400 | 0x800000])
+    elif machine == 8:
+        eflags = rng.choice([0x1000, 0x70001007, 0x80000006, 0x20000000 | 0x1000])
+    elif machine == 243:
+        eflags = rng.choice([0, 1, 5, 4])
+    elif machine == 21:
+        eflags = rng.choice([0, 1, 2])
+    secs = [elfgen.Sec('.text', 1, flags=6, data=b'\x90' * 16, addr=0x1000, align=16)]
+    segs = []
+    if etype == 3:
+        W = 'qQ' if is64 else 'iI'
+        tags = [(5, 0x2000), (6, 0x2100), (10, 8), (11, 24 if is64 else 16)] + ([(0x6ffffffb, 0x08000001)] if pie else [(0x6ffffffb, 1)]) + [(0, 0)]
+        dyn = b''.join(struct.pack(E + W, t if t < 2 ** 31 or is64 else t - 2 ** 32, val) for t, val in tags)
+        secs += [elfgen.Sec('.dynstr', 3, flags=2, data=b'\0lib.so\0', addr=0x2000),
+                 elfgen.Sec('.dynsym', 11, flags=2, data=bytes(24 if is64 else 16), link='.dynstr', info=1, entsize=24 if is64 else 16, addr=0x2100, align=8),
+                 elfgen.Sec('.dynamic', 6, flags=3, data=dyn, link='.dynstr', entsize=16 if is64 else 8, addr=0x3000, align=8)]
+        segs = [elfgen.Seg(type=1, sec='.dynstr', vaddr=0x2000), elfgen.Seg(type=1, sec='.dynsym', vaddr=0x2100),
+                elfgen.Seg(type=2, sec='.dynamic', vaddr=0x3000)]
+    esc = (v >> 2) % 4
+    img, info = elfgen.build(cls=cls, le=le, machine=machine, etype=etype, osabi=osabi, abiversion=rng.choice([0, 0, 1, 7]),
+                             entry=rng.choice([0, 0x1000, 0x401000, 2 ** (cls - 1) + 0x10]), eflags=eflags, sections=secs, segments=segs,
+                             esc_shnum=esc in (1, 3), esc_shstrndx=esc in (2, 3))
+    return img, dict(cls=cls, le=le, machine=machine, osabi=osabi, etype=etype, pie=pie, eflags=eflags, escapes=esc)
